@@ -212,7 +212,7 @@ Definition fs_copytree (tree : fs) (p : fpath) (f : fs) : res fs :=
    os.makedirs(dst) (exist_ok=False) works on the LEXICAL path: every proper lexical prefix that does
    not exist is created (so 'a/x/../y' leaves an empty 'a/x' behind), FileExistsError on the way is
    swallowed, and only the final mkdir insists that the directory is new *)
-Definition fs_copytree_lex (tree : fs) (base : fpath) (s : str) (f : fs) : res fs :=
+Definition fs_copytree_lex (tree : fs) (base : fpath) (s : str) (f : fs) : res (fs * option exn) :=
   if starts_slash s then ROod else
   let comps := filter (fun c => negb (is_empty c || str_eqb c dot)) (split 47 s) in
   match resolve_comps (rev base) comps with
@@ -223,9 +223,9 @@ Definition fs_copytree_lex (tree : fs) (base : fpath) (s : str) (f : fs) : res f
                  | None => ROod
                  | Some q => fs_mkdir_p q g
                  end) (removelast (lex_prefixes [] comps)) (ROk f);
-      if fs_exists p g then RExn EOSError
+      if fs_exists p g then ROk (g, Some EOSError)      (* the intermediate directories stay *)
       else do h <- fs_mkdir_p p g;
-           ROk (fold_left (fun acc e => fs_set (p ++ fst e) (snd e) acc) tree h)
+           ROk (fold_left (fun acc e => fs_set (p ++ fst e) (snd e) acc) tree h, None)
   end.
 
 (* canonical listing: sorted by component list *)
@@ -541,7 +541,7 @@ Definition fold_partial {A B} (step : A -> B -> res A) (l : list B) (a0 : A) : p
 
 (* export_to_directory: _mkdir_p(dirname(normpath(join(target, dst)))); shutil.copytree(src, join(target, dst)).
    F19 lives here: [resolve] follows '..' out of the target and nothing checks containment. *)
-Definition export_dir_step (f : fs) (jd : job * str) : res fs :=
+Definition export_dir_step (f : fs) (jd : job * str) : res (fs * option exn) :=
   let '(j, dst) := jd in
   let full := pjoin2 TARGET_STR dst in
   match resolve [] (dirname (normpath full)) with
@@ -601,7 +601,7 @@ Definition export_model (o : oracle) (jobs : list job) (k : tkind) (p : pathspec
   | ROk ds =>
       let jds := combine jobs ds in
       match k with
-      | KDir => let r := fold_partial export_dir_step jds fs0 in
+      | KDir => let r := fold_partial2 export_dir_step jds fs0 in
                 {| eo_exn := p_exn r; eo_ood := p_ood r; eo_map := ds; eo_art := ADir (p_val r) |}
       | KZip => let r := fold_partial (export_zip_step (o_asc o)) jds [] in
                 {| eo_exn := p_exn r; eo_ood := p_ood r; eo_map := ds; eo_art := AZip (p_val r) |}
